@@ -348,19 +348,27 @@ Definition mark_child_deleted (n nm : nat) (s : sstate) : sstate :=
   | None => s1
   end.
 
-Definition renamed_call (r nm : nat) (s : sstate) : sstate :=
-  match fr_parent (get_ref s r) with
-  | Some p => snd (bcall_ (BRenamed (fr_file (get_ref s r)) (fr_file (get_ref s p)) nm) s)
-  | None => set_panic s
-  end.
+(** notifyNameChange's callback: a fidRef that is being destroyed (count 0) is skipped; the others are
+    held while Renamed runs and collected in [held] (dropped by renameChildTo afterwards) *)
+Definition renamed_call (r nm : nat) (hs : list nat * sstate) : list nat * sstate :=
+  let '(held, s) := hs in
+  let '(ok, s1) := try_incref r s in
+  if ok then
+    let s2 := with_held (r :: s_held s1) s1 in
+    (held ++ [r],
+     match fr_parent (get_ref s2 r) with
+     | Some p => snd (bcall_ (BRenamed (fr_file (get_ref s2 r)) (fr_file (get_ref s2 p)) nm) s2)
+     | None => set_panic s2
+     end)
+  else (held, s1).
 
-Fixpoint notify_name_change (fuel n : nat) (s : sstate) : sstate :=
+Fixpoint notify_name_change (fuel n : nat) (hs : list nat * sstate) : list nat * sstate :=
   match fuel with
-  | 0 => set_oof s
+  | 0 => (fst hs, set_oof (snd hs))
   | S f =>
-      let pn := get_node s n in
-      let s1 := fold_left (fun st e => fold_left (fun st' r => renamed_call r (fst e) st') (snd e) st) (pn_refs pn) s in
-      fold_left (fun st c => notify_name_change f (snd c) st) (pn_nodes pn) s1
+      let pn := get_node (snd hs) n in
+      let hs1 := fold_left (fun st e => fold_left (fun st' r => renamed_call r (fst e) st') (snd e) st) (pn_refs pn) hs in
+      fold_left (fun st c => notify_name_change f (snd c) st) (pn_nodes pn) hs1
   end.
 
 (** the callback of renameChildTo: re-parent, re-register and notify first, drop the reference on the
@@ -382,7 +390,8 @@ Definition rename_child_to (fnode oldnm tgt newnm : nat) (s : sstate) : sstate :
   match orig with
   | Some c =>
       let s3 := add_path_node_for tn newnm c s2 in
-      if s_panic s3 then s3 else notify_name_change (node_fuel s3) c s3
+      if s_panic s3 then s3
+      else let '(held, s4) := notify_name_change (node_fuel s3) c ([], s3) in release_all held s4
   | None => s2
   end.
 
